@@ -416,6 +416,19 @@ class Verifier:
                              f"{shared} is shared by all instances: this write changes the behaviour of every other instance", False,
                              text=f"the class-level table {shared} is never mutated")
         I.hooks["container_write"] = on_container_write
+        if c.reads is not None:
+            # read frame: the result of the function is a function of the listed fields of `self` only
+            allowed = {p_.split(".", 1)[1] for p_ in c.reads}
+            self_oid_r = I.run.sym_oids.get("self")
+
+            def chk_read(ref, attr):
+                if I.pure or ref.oid != self_oid_r or attr in allowed:
+                    return
+                I.ctx.oblige(I, "always", f"reads-only[{','.join(sorted(c.reads))}]", z3.BoolVal(False),
+                             f"reads self.{attr}: the result would depend on state outside its read frame", False,
+                             text=f"the function reads no field of self other than {sorted(c.reads)}")
+            prev_r = I.hooks.get("field_read")
+            I.hooks["field_read"] = (lambda ref, attr: (chk_read(ref, attr), prev_r(ref, attr) if prev_r else None)[0])
         owned = c.locks.get("owned")
         if owned:
             # ownership clause: the listed fields of `self` are only touched while the lock is held
@@ -435,7 +448,8 @@ class Verifier:
                         I.ctx.oblige(I, "owns", f"{attr}:{mode}", lrec.held >= 1,
                                      f"{mode} of self.{attr} without holding {lockpath}", False,
                                      text=f"self.{attr} is only accessed while {lockpath} is held")
-            I.hooks["field_read"] = lambda ref, attr: chk(ref, attr, "read")
+            prev_fr = I.hooks.get("field_read")
+            I.hooks["field_read"] = lambda ref, attr: ((prev_fr(ref, attr) if prev_fr else None), chk(ref, attr, "read"))[1]
             I.hooks["field_write"] = lambda ref, attr: chk(ref, attr, "write")
         if c.locks.get("discipline"):
             # lock discipline from which atomicity follows: never two locks at once (no deadlock for any set of calls), and all guarded
